@@ -402,6 +402,9 @@ def check_generated(ctx, tmpdir):
                         base = (way, out)
                     elif out != base[1]:
                         kindname = fname.split("#")[0]
+                        if label == "DSF" and len(data) >= 28 and int.from_bytes(data[20:28], "little") > len(data):
+                            # whatever the generator did to the file: its metadata pointer lies behind its end
+                            kindname = "pointer-behind-eof"
                         if out[0] != base[1][0]:
                             what = "outcome %s via %s but %s via %s" % (out[0], way, base[1][0], base[0])
                             key = "differs:%s:%s:%s-vs-%s:%s" % (label, op, out[0], base[1][0], kindname)
